@@ -219,7 +219,28 @@ func (e *effects) rootOf(v ssa.Value, depth int) origin {
 				// existing struct shares everything its pointers lead to)
 				return e.allocContent(a, depth+1)
 			}
-			return e.rootOf(x.X, depth+1)
+			o := e.rootOf(x.X, depth+1)
+			if ia, ok := x.X.(*ssa.IndexAddr); ok && pointerLike(x.Type()) && (o.kind == oFresh || o.kind == oFreeVar) {
+				// a pointer read out of a slice that was made here: the memory behind it is that of the values put
+				// into slices of this element type in this function (element stores, the argument packs of append)
+				if fn := ia.Parent(); fn != nil {
+					for _, b := range fn.Blocks {
+						for _, in := range b.Instrs {
+							st, ok := in.(*ssa.Store)
+							if !ok {
+								continue
+							}
+							if _, ok := st.Addr.(*ssa.IndexAddr); !ok || !types.Identical(st.Val.Type(), x.Type()) {
+								continue
+							}
+							if o2 := e.rootOf(st.Val, depth+1); o2.kind != oFresh {
+								o = o2
+							}
+						}
+					}
+				}
+			}
+			return o
 		}
 		return origin{kind: oFresh}
 	case *ssa.ChangeType:
@@ -249,7 +270,23 @@ func (e *effects) rootOf(v ssa.Value, depth int) origin {
 	case *ssa.Lookup, *ssa.Next, *ssa.Range:
 		switch y := x.(type) {
 		case *ssa.Lookup:
-			return e.rootOf(y.X, depth+1)
+			o := e.rootOf(y.X, depth+1)
+			// a pointer read out of a map is what was put into the map, wherever the map itself was made: the
+			// updates of maps of the same type in this function say what that is
+			if fn := y.Parent(); fn != nil && pointerLike(elemOfMap(y.X.Type())) {
+				for _, b := range fn.Blocks {
+					for _, in := range b.Instrs {
+						if mu, ok := in.(*ssa.MapUpdate); ok && types.Identical(mu.Map.Type(), y.X.Type()) {
+							// the memory behind the pointer is that of the stored value, not that of the map: a
+							// map made here (or captured from the function that made it) does not make it fresh
+							if o2 := e.rootOf(mu.Value, depth+1); o2.kind != oFresh && (o.kind == oFresh || o.kind == oFreeVar || o2.kind > o.kind) {
+								o = o2
+							}
+						}
+					}
+				}
+			}
+			return o
 		case *ssa.Next:
 			return e.rootOf(y.Iter, depth+1)
 		case *ssa.Range:
@@ -607,6 +644,25 @@ func modelType(t string) bool {
 		if strings.Contains(t, "jsight-api-core"+p) {
 			return true
 		}
+	}
+	return false
+}
+
+
+func elemOfMap(t types.Type) types.Type {
+	if m, ok := t.Underlying().(*types.Map); ok {
+		return m.Elem()
+	}
+	return nil
+}
+
+func pointerLike(t types.Type) bool {
+	if t == nil {
+		return false
+	}
+	switch t.Underlying().(type) {
+	case *types.Pointer, *types.Interface, *types.Slice, *types.Map:
+		return true
 	}
 	return false
 }
